@@ -31,6 +31,14 @@ def run(res):
                         "store-level reading: 'confirm sent' = the storage relay event; 'ack reached the broker' = Del requested"]
     sl.run_msg_pipeline(res, PROP, "Props/C04.v", CHECKER, CLAUSES, plan(quick, res.seed),
                         corpus_dir=os.path.join(vlib.VERIF, "corpus", "C04"))
+    # the broker-level clause (Props/C04_broker.v over Broker/Model.v: a confirmed persistent message held by a durable queue
+    # has its key flushed and comes back from a kill at any later instant).  The broker model is tied to /repo by the T1
+    # sessions of C02 / C05 / C09 (restart and confirm mixes); here its obligations are re-checked.
+    pr2 = vlib.coq_check_props("Props/C04_broker.v")
+    res.add_proof(pr2, CHECKER + " && coqc -Q /verif/coq GMQ Props/C04_broker.v")
+    if not pr2["ok"]:
+        what = "proof obligation no longer checks: %s: %s" % (pr2.get("failed_file"), pr2.get("error", "")[:600])
+        res.violation(dict(kind="obligation", broken=what), False, what[:300])
 
 
 def replay(path):
